@@ -101,6 +101,7 @@ func c06Replay(args []string) {
 	suffix := fs.String("suffix", "B", "")
 	interleave := fs.Float64("interleave", 0, "probability of extra serialised CheckTx/Query/Simulate calls between consensus calls")
 	restart := fs.Float64("restart", 0, "probability per Commit of restarting the application on the same database")
+	crash := fs.Float64("crash", 0, "probability per in-block call of the node dying and re-executing the block on a new instance")
 	file := fs.String("file", "", "replay a single trace file and print digests")
 	dump := fs.Bool("dump", false, "with -file: print the decoded messages of the trace instead of replaying it")
 	fs.Parse(args)
@@ -137,13 +138,16 @@ func c06Replay(args []string) {
 		}
 		bad := 0
 		for ci, ch := range chains {
-			out, err := chain.Replay(ch, chain.ReplayOpts{Interleave: *interleave, Restart: *restart, Rng: rand.New(rand.NewSource(*seed))})
+			out, err := chain.Replay(ch, chain.ReplayOpts{Interleave: *interleave, Restart: *restart, Crash: *crash, Rng: rand.New(rand.NewSource(*seed))})
 			if err != nil {
 				fmt.Fprintf(stdout, "chain %d: replay error %v\n", ci, err)
 				bad++
 				continue
 			}
 			for i := range out {
+				if i >= len(ch) {
+					break
+				}
 				if ch[i].Op != "init" && out[i].Digest != ch[i].Digest && ch[i].Digest2 != "" && out[i].Digest2 == ch[i].Digest2 && out[i].Class == "stateless-reject/first-block-after-restart" {
 					fmt.Fprintf(stdout, "chain %d step %d (%s h=%d): only GasUsed differs on a transaction rejected by ValidateBasic in the first block after a restart (listed finding): recorded %s replayed %s\n", ci, i, ch[i].Op, ch[i].Height, ch[i].Info, out[i].Info)
 					continue
@@ -169,7 +173,7 @@ func c06Replay(args []string) {
 		fmt.Fprintf(os.Stderr, "replay case %d\n", k)
 		var outs [][]chain.TraceOp
 		for _, ch := range chains {
-			out, err := chain.Replay(ch, chain.ReplayOpts{Interleave: *interleave, Restart: *restart, Rng: rand.New(rand.NewSource(*seed*31 + int64(k)))})
+			out, err := chain.Replay(ch, chain.ReplayOpts{Interleave: *interleave, Restart: *restart, Crash: *crash, Rng: rand.New(rand.NewSource(*seed*31 + int64(k)))})
 			if err != nil {
 				out = append(out, chain.TraceOp{Op: "error", Info: err.Error()})
 			}
